@@ -21,14 +21,18 @@ CONSTANTS
     OrderMode,   \* "all": every tie-structured second-side order, "asc": ascending strict, "asctied": ascending, all tied
     PCs, Stabs,  \* subsets of BOOLEAN
     BFs,         \* subset of BOOLEAN: brute-force mode
-    CritLists,   \* set of ordered criteria lists
+    CritLists,   \* set of ordered criteria lists (CritMode = "set")
+    CritMode,    \* "set": choose a list from CritLists; "build": add one criterion per step
+    CritVariants,\* set of criteria [c, x] the build mode chooses from
+    MinCrits, MaxCrits,
     Press,       \* subset of {"id", "rev", "gap"}
     Styles,      \* subset of {"plain", "wide", "tabs"}: whitespace variants of the rendered file
     InfoBlocks,  \* subset of BOOLEAN: trailing parameter block present?
     CheckIP,     \* evaluate the IP-level M1 obligations
     CheckText,   \* evaluate ParseFile(Render(fc)) = inst
     ReportCap,   \* how many final matchings get an expected report in the export
-    Detail       \* export F0 and per-solve sets
+    Detail,      \* export F0 and per-solve sets
+    ExportMode   \* "run": export finished runs; "checker": export stability verdicts of all upper-quota-respecting assignments
 
 VARIABLES b, style, block
 vars == <<svars, b, style, block>>
@@ -62,11 +66,13 @@ OrdersOf(T) ==      \* tie-structured orders of the set T (second-side lists)
                       : q \in DistinctSeqs(T, n)}
 
 NLec == IF NA = 2 THEN NP ELSE NL
+AfterLists == IF CritMode = "build" THEN "crits" ELSE "opts"
 
 -----------------------------------------------------------------------------
 (* build state *)
 BInit == b = [stage |-> "students", prefs |-> <<>>, ranks |-> <<>>, plq |-> <<>>, puq |-> <<>>, plec |-> <<>>,
-              llq |-> <<>>, lt |-> <<>>, luq |-> <<>>, sided |-> "one", lprefs |-> <<>>, lranks |-> <<>>]
+              llq |-> <<>>, lt |-> <<>>, luq |-> <<>>, sided |-> "one", lprefs |-> <<>>, lranks |-> <<>>,
+              cl |-> <<>>]
 
 Init == /\ BInit /\ SInit
         /\ fc = [na |-> 0] /\ opts = [na |-> 0] /\ plan = <<>>
@@ -100,7 +106,24 @@ AddLecturer ==
 ChooseSided ==
     /\ b.stage = "sided"
     /\ \E sd \in Sided :
-         b' = [b EXCEPT !.sided = sd, !.stage = IF sd = "one" THEN "opts" ELSE "lists"]
+         b' = [b EXCEPT !.sided = sd, !.stage = IF sd = "one" THEN AfterLists ELSE "lists"]
+    /\ UNCHANGED <<svars, style, block>>
+
+(* criteria list built one criterion per step (sampling-friendly) *)
+MaxRankB == MaxSeq0([s \in 1 .. NS |-> MaxSeq0(b.ranks[s])])
+AdmissibleMR(mr, cr) ==
+    /\ cr.c = "gen" /\ Len(cr.x) >= 1 => cr.x[1] >= 1 /\ cr.x[1] <= mr
+    /\ cr.c = "gre" /\ Len(cr.x) >= 1 => cr.x[1] >= 1
+AddCrit ==
+    /\ b.stage = "crits" /\ Len(b.cl) < MaxCrits
+    /\ \E cv \in CritVariants :
+         /\ \A i \in DOMAIN b.cl : b.cl[i].c # cv.c
+         /\ AdmissibleMR(MaxRankB, cv)
+         /\ b' = [b EXCEPT !.cl = Append(@, cv)]
+    /\ UNCHANGED <<svars, style, block>>
+EndCrits ==
+    /\ b.stage = "crits" /\ Len(b.cl) >= MinCrits
+    /\ b' = [b EXCEPT !.stage = "opts"]
     /\ UNCHANGED <<svars, style, block>>
 
 RankersOf(l) == {s \in 1 .. NS : \E i \in DOMAIN b.prefs[s] : b.plec[b.prefs[s][i]] = l}
@@ -109,7 +132,7 @@ AddList ==
     /\ LET l == Len(b.lprefs) + 1 IN
        \E o \in OrdersOf(RankersOf(l)) :
          b' = [b EXCEPT !.lprefs = Append(@, o.p), !.lranks = Append(@, o.r),
-                        !.stage = IF l = NLec THEN "opts" ELSE "lists"]
+                        !.stage = IF l = NLec THEN AfterLists ELSE "lists"]
     /\ UNCHANGED <<svars, style, block>>
 
 EmptyLists == [l \in 1 .. NLec |-> <<>>]
@@ -125,7 +148,8 @@ FCofB ==
 
 ChooseOpts ==
     /\ b.stage = "opts"
-    /\ \E pc \in PCs : \E stab \in Stabs : \E isbf \in BFs : \E cl \in CritLists : \E pr \in Press :
+    /\ \E pc \in PCs : \E stab \in Stabs : \E isbf \in BFs :
+       \E cl \in (IF CritMode = "build" THEN {b.cl} ELSE CritLists) : \E pr \in Press :
        \E sty \in Styles : \E blk \in InfoBlocks :
          LET twopl == b.sided = "two" IN
          /\ stab => twopl                           \* refusals are the business of MC_Options
@@ -143,7 +167,7 @@ ChooseOpts ==
 Built == b.stage = "done"
 
 Next ==
-    \/ AddStudent \/ AddProject \/ AddLecturer \/ ChooseSided \/ AddList \/ ChooseOpts
+    \/ AddStudent \/ AddProject \/ AddLecturer \/ ChooseSided \/ AddList \/ AddCrit \/ EndCrits \/ ChooseOpts
     \/ (Built /\ Construct /\ UNCHANGED <<b, style, block>>)
     \/ (Built /\ nruns = 0 /\ BeginSolve /\ UNCHANGED <<b, style, block>>)
     \/ (SolveStep /\ UNCHANGED <<b, style, block>>)
@@ -185,7 +209,15 @@ HistLP ==
 HistBF == [ kind |-> "bf", o |-> Common, inst |-> inst, res |-> bf.res ]
 HistRefused == [ kind |-> "refused", o |-> Common ]
 
+HistChecker ==
+    LET ms == SetToSeq(UpperRespecting(inst)) IN
+    [ kind |-> "checker", o |-> Common, inst |-> inst,
+      cases |-> [i \in DOMAIN ms |-> [m |-> ms[i], stable |-> Stable(inst, ms[i]),
+                                      valid |-> Valid(inst, ms[i], FALSE)]] ]
 Export ==
-    /\ RunOver => PrintT("EXPORT " \o ToJson(HistLP))
-    /\ (phase = "solved" /\ opts.bf) => PrintT("EXPORT " \o ToJson(HistBF))
+    /\ (ExportMode = "run" /\ RunOver) => PrintT("EXPORT " \o ToJson(HistLP))
+    /\ (ExportMode = "run" /\ phase = "solved" /\ opts.bf) => PrintT("EXPORT " \o ToJson(HistBF))
+    /\ (ExportMode = "checker" /\ phase = "ready") => PrintT("EXPORT " \o ToJson(HistChecker))
+(* in checker mode nothing needs to run after construction *)
+StopAfterReady == ExportMode = "checker" => phase \in {"init", "ready", "refused"}
 =============================================================================
